@@ -16,16 +16,17 @@ VerIdx == 0..Len(Versions)
 (* "cand-before" / "cand-after": a NON-executable data file whose name has the plugin file-name format (notation-aaa, notation-zzz)
    and sorts before / after the candidate *)
 ExtraSeqs == IF Variant = "full" THEN {<<>>, <<"aaa-before">>, <<"zzz-after">>, <<"aaa-before", "zzz-after">>, <<"embeds-prefix">>, <<"aaa-before", "embeds-prefix", "zzz-after">>,
-                                       <<"cand-before">>, <<"cand-after">>, <<"cand-before", "cand-after">>, <<"aaa-before", "cand-before", "zzz-after">>}
-             ELSE {<<>>, <<"aaa-before", "zzz-after">>, <<"embeds-prefix">>, <<"cand-before">>, <<"cand-after">>}
+                                       <<"cand-before">>, <<"cand-after">>, <<"cand-before", "cand-after">>, <<"aaa-before", "cand-before", "zzz-after">>,
+                                       <<"link-file">>, <<"link-dangling">>, <<"link-cand">>, <<"aaa-before", "link-file", "link-dangling">>}
+             ELSE {<<>>, <<"aaa-before", "zzz-after">>, <<"embeds-prefix">>, <<"cand-before">>, <<"cand-after">>, <<"link-file", "link-dangling">>, <<"link-cand">>}
 Shapes == {[shape |-> "file", cand |-> "exec"], [shape |-> "file", cand |-> "nonexec"], [shape |-> "file", cand |-> "misnamed"], [shape |-> "dir", cand |-> "exec"],
-           [shape |-> "dir", cand |-> "nonexec"], [shape |-> "dir", cand |-> "two"], [shape |-> "dir", cand |-> "none"]}
+           [shape |-> "dir", cand |-> "nonexec"], [shape |-> "dir", cand |-> "two"], [shape |-> "dir", cand |-> "none"], [shape |-> "dir", cand |-> "linkOnly"]}
 AllSources == {[ver |-> v, meta |-> m, shape |-> sh.shape, cand |-> sh.cand, extras |-> ex, subdir |-> sd, overwrite |-> ow, loc |-> "elsewhere"] :
               v \in VerIdx, m \in (IF Variant = "full" THEN {"ok", "invalid", "misnamed"} ELSE {"ok", "misnamed"}), sh \in Shapes, ex \in ExtraSeqs,
               sd \in (IF Variant = "full" THEN BOOLEAN ELSE {TRUE}), ow \in BOOLEAN}
 (* a directory whose only name-format file is such a data file would install THAT as a plugin of another name: left out;
    a single-file source has no extras that matter *)
-Sources == {s \in AllSources : s.cand \in {"none", "misnamed"} => Range(s.extras) \cap CandLike = {}}
+Sources == {s \in AllSources : s.cand \in {"none", "misnamed", "linkOnly"} => Range(s.extras) \cap CandLike = {}}
 
 (* the installed plugin offered as its own source (its directory, or its executable) *)
 SelfSources(c) == IF c.present THEN {[ver |-> c.ver, meta |-> "ok", shape |-> sh, cand |-> "exec", extras |-> <<>>, subdir |-> FALSE, overwrite |-> ow, loc |-> "installed"] :
